@@ -102,6 +102,21 @@ func runHistProp(o *Options, prop string, prof *Profile, quickN, thoroughN int, 
 			h.run()
 			hs = append(hs, h)
 		}
+		// a counting loop cut by the writer at each of its writes (body, separator, text around it),
+		// then a Reset, then paths written with brackets outside any counting loop (there the
+		// brackets are part of the name: no such variable, nothing is printed)
+		for cut := 1; cut <= 7; cut++ {
+			for k, sep := range []string{"reset", "release"} {
+				h := &history{Reg: map[string][]dyntpl.VerifNode{}, Flits: map[string]float64{}, Budget: 8}
+				d := &DataEnv{User: UserData{Present: true, Id: "u", Name: []byte("n"), HasFinance: true, History: []HistRow{{DateUnix: 1, Cost: 1, Comment: []byte("zero")}, {DateUnix: 2, Cost: 2, Comment: []byte("one")}}},
+					Statics: []StaticVar{{Name: "one", Kind: "int", I: 1}, {Name: "v", Kind: "string", S: []byte("V")}}}
+				loop := manualCase((id0+40+cut)*10+k, `[{% for i := 0; i < 3; i++ sep , %}a{%= user.Finance.History[i].Comment %}{% endfor %}]`, d, h)
+				after := manualCase((id0+60+cut)*10+k, `<{%= v[one] %}|{% for _, h := range user.Finance.History %}{%= v[one] %}{%= h.Comment %};{% endfor %}>`, d, h)
+				h.Steps = []*hStep{{Kind: "render", IC: loop, Key: loop.vc.Meta["key"].(string), Fail: cut, Short: cut % 2}, {Kind: sep}, {Kind: "render", IC: after, Key: after.vc.Meta["key"].(string)}, {Kind: "reset"}}
+				h.run()
+				hs = append(hs, h)
+			}
+		}
 		// slot transitions: every ordered pair of variable kinds (13 x 13) in the same slots across a reset
 		id := n
 		for _, a := range slotKinds {
@@ -111,6 +126,28 @@ func runHistProp(o *Options, prop string, prof *Profile, quickN, thoroughN int, 
 				hs = append(hs, h)
 				id++
 			}
+		}
+	}
+	if prop == "C18" || prop == "C16" {
+		// a render that fails inside an included template (which includes a template nobody
+		// registered), then further renders on the same context without Reset: what they defer runs
+		for k := 0; k < 2; k++ {
+			h := &history{Reg: map[string][]dyntpl.VerifNode{}, Flits: map[string]float64{}, Budget: 8}
+			d := &DataEnv{Statics: []StaticVar{{Name: "t0", Kind: "string", S: []byte("x")}}}
+			sub := manualCase((n+3000+k)*10, `abc{% include nobody-registered-this %}def`, d, h)
+			skey := sub.vc.Meta["key"].(string)
+			h.Reg[skey] = sub.vc.Tree
+			h.RegKeys = append(h.RegKeys, skey)
+			good := manualCase((n+3000+k)*10+1, `<{%= t0 %}>`, d, h)
+			gkey := good.vc.Meta["key"].(string)
+			h.Reg[gkey] = good.vc.Tree
+			h.RegKeys = append(h.RegKeys, gkey)
+			bad := manualCase((n+3000+k)*10+2, fmt.Sprintf(`1{%%= t0|vdefer("b%d") %%}[{%% include %s %%}]`, k, skey), d, h)
+			ok := manualCase((n+3000+k)*10+3, fmt.Sprintf(`1{%%= t0|vdefer("g%d") %%}[{%% include %s %%}]{%%= t0|vdefer("h%d")|vacquire("pa") %%}.`, k, gkey, k), d, h)
+			step := func(ic *interpCase) *hStep { return &hStep{Kind: "render", IC: ic, Key: ic.vc.Meta["key"].(string)} }
+			h.Steps = []*hStep{step(bad), step(ok), step(ok), {Kind: []string{"reset", "release"}[k]}, step(ok), {Kind: "reset"}}
+			h.run()
+			hs = append(hs, h)
 		}
 	}
 	if prop == "C18" {
